@@ -366,7 +366,7 @@ def replay(oid, kwargs, model, data):
 
     warnings.simplefilter("ignore")
     fn = data["fn"]
-    kind = kwargs["kind"]
+    kind = kwargs.get("kind", "photon")
     cls = _types(kind)
     if fn == "step":
         pre, op, dtype, shape = kwargs["pre"], kwargs["op"], kwargs["dtype"], tuple(kwargs["shape"])
